@@ -13,6 +13,11 @@ import (
 	. "github.com/antonmedv/expr/vm"
 )
 
+var (
+	intType    = reflect.TypeOf(0)
+	stringType = reflect.TypeOf("")
+)
+
 func Compile(tree *parser.Tree, config *conf.Config) (program *Program, err error) {
 	defer func() {
 		if r := recover(); r != nil {
@@ -274,17 +279,19 @@ func (c *compiler) UnaryNode(node *ast.UnaryNode) {
 }
 
 func (c *compiler) BinaryNode(node *ast.BinaryNode) {
-	l := kind(node.Left)
-	r := kind(node.Right)
+	l := node.Left.Type()
+	r := node.Right.Type()
 
 	switch node.Operator {
 	case "==":
 		c.compile(node.Left)
 		c.compile(node.Right)
 
-		if l == r && l == reflect.Int {
+		// OpEqualInt and OpEqualString assert the predeclared types: a named
+		// type of the same kind has to go through the generic comparison.
+		if l == r && l == intType {
 			c.emit(OpEqualInt)
-		} else if l == r && l == reflect.String {
+		} else if l == r && l == stringType {
 			c.emit(OpEqualString)
 		} else {
 			c.emit(OpEqual)
@@ -669,12 +676,4 @@ func encode(i uint16) []byte {
 	b := make([]byte, 2)
 	binary.LittleEndian.PutUint16(b, i)
 	return b
-}
-
-func kind(node ast.Node) reflect.Kind {
-	t := node.Type()
-	if t == nil {
-		return reflect.Invalid
-	}
-	return t.Kind()
 }
